@@ -128,9 +128,9 @@ Lemma step_currents r n o :
   st (fst (step_r r n o)) <> Stable ->
   curL (fst (step_r r n o)) = curL n /\ curR (fst (step_r r n o)) = curR n.
 Proof.
-  destruct o as [id|id sn|d|d|]; cbn; intro Hns.
-  - destruct (create_offer_slots n id) as [_ [_ [Hcl [_ [Hcr _]]]]]. auto.
-  - destruct (create_answer_slots n id sn) as [_ [_ [Hcl [_ [Hcr _]]]]]. auto.
+  destruct o as [id g|id sn g|d|d|]; cbn; intro Hns.
+  - destruct (create_offer_slots n id g) as [_ [_ [Hcl [_ [Hcr _]]]]]. auto.
+  - destruct (create_answer_slots n id sn g) as [_ [_ [Hcl [_ [Hcr _]]]]]. auto.
   - destruct (set_local r n d) as [n' res] eqn:E. cbn in *.
     apply set_local_cases in E. destruct E as [[E _] | [E _]]; [subst; auto|].
     eapply set_description_currents; eassumption.
@@ -163,4 +163,65 @@ Proof.
   destruct (rollback_ok_result _ _ _ _ _ Hcb Hty H) as [_ [A [B [C [D [E _]]]]]].
   destruct (run_currents r mid n0 Hns) as [F G].
   rewrite D, E, F, G. auto.
+Qed.
+
+(* ---------- the current descriptions of the last stable moment ---------- *)
+
+(* runs the history and remembers the pair of current descriptions at the
+   last moment the signaling state was stable (the start counts) *)
+Fixpoint track_stable (r : repair) (n : neg) (ls : option desc * option desc)
+         (ops : list pcop) : neg * (option desc * option desc) :=
+  match ops with
+  | [] => (n, ls)
+  | o :: t =>
+      let n' := fst (step_r r n o) in
+      track_stable r n' (if sstate_eqb (st n') Stable then (curL n', curR n') else ls) t
+  end.
+
+Definition last_stable_pair (r : repair) (ops : list pcop) : option desc * option desc :=
+  snd (track_stable r neg0 (curL neg0, curR neg0) ops).
+
+Lemma sstate_eqb_false a b : sstate_eqb a b = false -> a <> b.
+Proof. destruct a, b; cbn; intro H; try discriminate; intro E; discriminate. Qed.
+
+Lemma track_stable_run r ops : forall n ls,
+  fst (track_stable r n ls ops) = run_from_r r n ops.
+Proof.
+  induction ops as [|o t IH]; intros n ls; [reflexivity|].
+  cbn [track_stable]. rewrite IH. reflexivity.
+Qed.
+
+(* the current descriptions never differ from those of the last stable
+   moment: they change only on entering stable *)
+Lemma track_stable_currents r ops : forall n ls,
+  (curL n, curR n) = ls ->
+  let res := track_stable r n ls ops in
+  (curL (fst res), curR (fst res)) = snd res.
+Proof.
+  induction ops as [|o t IH]; intros n ls Hinv; [exact Hinv|].
+  cbn [track_stable]. apply IH.
+  destruct (sstate_eqb (st (fst (step_r r n o))) Stable) eqn:Es; [reflexivity|].
+  apply sstate_eqb_false in Es.
+  destruct (step_currents r n o Es) as [A B]. rewrite A, B. exact Hinv.
+Qed.
+
+Lemma run_currents_last_stable r ops :
+  (curL (run_r r ops), curR (run_r r ops)) = last_stable_pair r ops.
+Proof.
+  unfold last_stable_pair, run_r.
+  rewrite <- (track_stable_run r ops neg0 (curL neg0, curR neg0)).
+  apply track_stable_currents. reflexivity.
+Qed.
+
+(* any history ending in a successful rollback: the current descriptions are
+   the pair of the last stable moment of the history before it *)
+Lemma rollback_restores_last_stable r ops sd d n' :
+  r_clear_both r = true -> d_ty d = Rollback ->
+  step_r r (run_r r ops) (set_op sd d) = (n', Ok tt) ->
+  st n' = Stable /\ pendL n' = None /\ pendR n' = None /\
+  (curL n', curR n') = last_stable_pair r ops.
+Proof.
+  intros Hcb Hty H.
+  destruct (rollback_ok_result _ _ _ _ _ Hcb Hty H) as [_ [A [B [C [D [E _]]]]]].
+  rewrite D, E. repeat split; auto. apply run_currents_last_stable.
 Qed.
